@@ -9,6 +9,7 @@ import io
 import itertools
 import json
 import logging
+import threading
 
 PROPERTY = 'C20'
 LEVEL = 'exploration'
@@ -16,7 +17,8 @@ RULE = ('one case = one sequence of configuration operations (declare +- default
         'redeclare, load/load_from_dict/load_from_file with _override and '
         '_allow_undeclared, flag values, reset, save_and_restore plain / with values, called at once '
         'or decorated now and called later (twice), '
-        '/ raising / nested, attribute assignment) on a fresh _Configuration; after '
+        '/ raising (also KeyboardInterrupt / SystemExit) / nested, attribute assignment) on a fresh _Configuration; two threads on one '
+        'configuration object, the first held at each line of declare / load / reset while the second operates on the same key; after '
         'each operation `in`, item, attribute, holder.value, holder.default and '
         '_asdict() are compared with the dictionary model for every key of the '
         'universe; distinct = distinct operation sequence, non-trivial = at least '
@@ -54,6 +56,8 @@ ALPHABET = [
     ['snr', {}, [['load', {'alpha': 7}, True, False]], False],
     ['snr', {'alpha': 8}, [], False],
     ['snr', {'alpha': 8, 'beta': 'b'}, [['load', {'beta': 0}, True, False]], True],
+    ['snr', {'alpha': 8}, [['load', {'gamma': 15}, True, False]], 'kbi'],
+    ['snr', {}, [['load', {'alpha': 16}, True, False]], 'exit'],
     # decoration and call separated: the wrapper is made now and called later
     # (possibly twice), with loads in between
     ['snr_dec', 0, {}],
@@ -84,6 +88,10 @@ def enumerated(tier):
     for seq in itertools.product(range(len(ALPHABET)), repeat=length):
       if not declaring.intersection(seq):
         yield {'seq': list(seq), 'pre': True}
+  for a_op, b_op in (('declare', 'declare'), ('declare', 'load'), ('load', 'declare'),
+                     ('load', 'load'), ('reset', 'load'), ('load', 'reset')):
+    for idx in range(60):
+      yield {'race': 1, 'a': a_op, 'b': b_op, 'idx': idx}
   yield {'e2e': 1}
   yield {'e2e': 2}
   yield {'invalid_keys': 1}
@@ -109,7 +117,7 @@ def _rand_op(rng, depth=0):
     inner = ([_rand_op(rng, depth + 1) for _ in range(rng.randint(0, 3))]
              if depth < 2 else [])
     return ['snr', {key(): val() for _ in range(rng.randint(0, 2))}, inner,
-            rng.random() < .4]
+            rng.choice([False, False, False, True, True, 'kbi', 'exit'])]
   if k == 'setattr':
     return ['setattr', key(), val()]
   d = {key(): rng.choice([1, 'two', [3], None, 2.5])
@@ -200,7 +208,7 @@ class Model:
       for sub in inner:
         self.apply(sub)
       self.loaded = saved
-      return 'Boom' if raises else None
+      return raised_name(raises)
     if kind == 'snr_dec':
       self.wrappers[op[1]] = dict(op[2])
       return None
@@ -213,7 +221,7 @@ class Model:
       for sub in inner:
         self.apply(sub)
       self.loaded = saved
-      return 'Boom' if raises else None
+      return raised_name(raises)
     if kind == 'setattr':
       return 'AttributeError'
     if kind == 'file':
@@ -231,6 +239,21 @@ class Model:
 
 class Boom(Exception):
   pass
+
+
+def raise_kind(raises):
+  """What a wrapped body ends with: an Exception, or a BaseException that is
+  not one (Ctrl-C, sys.exit / a killed phase thread)."""
+  if raises == 'kbi':
+    raise KeyboardInterrupt('body interrupted')
+  if raises == 'exit':
+    raise SystemExit('body exits')
+  raise Boom()
+
+
+def raised_name(raises):
+  return {True: 'Boom', 'kbi': 'KeyboardInterrupt', 'exit': 'SystemExit'}.get(
+      raises) if raises else None
 
 
 def apply_real(conf, holders, op):
@@ -257,10 +280,10 @@ def apply_real(conf, holders, op):
       for sub in inner:
         try:
           apply_real(conf, holders, sub)
-        except Exception:  # pylint: disable=broad-except
+        except BaseException:  # pylint: disable=broad-except
           pass  # inner failures are compared by the state reads afterwards
       if raises:
-        raise Boom()
+        raise_kind(raises)
       return 'ret'
 
     if values:
@@ -278,10 +301,10 @@ def apply_real(conf, holders, op):
       for sub in _cell.get('inner', []):
         try:
           apply_real(conf, holders, sub)
-        except Exception:  # pylint: disable=broad-except
+        except BaseException:  # pylint: disable=broad-except
           pass
       if _cell.get('raises'):
-        raise Boom()
+        raise_kind(_cell['raises'])
       return 'ret'
 
     if values:
@@ -381,12 +404,114 @@ def compare_reads(conf, holders, model, viol, counters, after):
 _CONFIGURATION = None
 
 
+_ENGINE = {}
+_RACE_POINTS = {}
+
+
 def setup():
   global _CONFIGURATION
   from openhtf.util import configuration
-  from vf import harness
+  from vf import harness, pause
   harness.assert_root(configuration)
   _CONFIGURATION = configuration
+  eng = pause.Engine([configuration.__file__],
+                     lambda th: 'A' if th.name == 'vf-conf-A' else None)
+  eng.install()
+  eng.enabled = False
+  _ENGINE['e'] = eng
+
+
+def teardown():
+  _ENGINE['e'].uninstall()
+
+
+def run_race(case):
+  """Two threads use one configuration object: thread A is held at each line of
+  an operation (declare / load / reset) while thread B performs another one on
+  the same key.  A key is declared once (the loser gets KeyAlreadyDeclaredError)
+  and all views of it agree afterwards."""
+  eng = _ENGINE['e']
+  a_op, b_op = case['a'], case['b']
+
+  def do(conf, op, holders, out, tag):
+    try:
+      if op == 'declare':
+        holders[tag] = conf.declare('alpha', default_value=tag)
+      elif op == 'load':
+        conf.load(alpha='loaded-by-' + tag, _allow_undeclared=True)
+      elif op == 'reset':
+        conf.reset()
+      out[tag] = 'ok'
+    except BaseException as e:  # pylint: disable=broad-except
+      out[tag] = type(e).__name__
+
+  def scenario(target):
+    conf = _CONFIGURATION._Configuration()  # pylint: disable=protected-access
+    if a_op != 'declare' and b_op != 'declare':
+      conf.declare('alpha', default_value='dflt')
+    holders, out, info = {}, {}, {'reached': False}
+    eng.arm(target)
+    eng.enabled = True
+    try:
+      ta = threading.Thread(target=do, args=(conf, a_op, holders, out, 'A'),
+                            name='vf-conf-A')
+      ta.start()
+      if target is not None:
+        r = eng.run_action_at_pause(lambda: do(conf, b_op, holders, out, 'B'),
+                                    wait_s=3, hold_s=0.15)
+        info['reached'] = r['reached']
+        if r.get('_thread'):
+          r['_thread'].join(5)
+      ta.join(5)
+      if 'B' not in out:
+        do(conf, b_op, holders, out, 'B')
+    finally:
+      eng.release()
+      eng.enabled = False
+    info['seen'] = dict(eng.seen)
+    return conf, holders, out, info
+
+  key = (a_op, b_op)
+  if key not in _RACE_POINTS:
+    _, _, _, info = scenario(None)
+    _RACE_POINTS[key] = [(k, h) for k, n in sorted(info['seen'].items())
+                         for h in range(1, min(n, 2) + 1)]
+  pts = _RACE_POINTS[key]
+  if case['idx'] >= len(pts):
+    return {'sig': None, 'violations': [], 'counters': {}, 'evaluations': 0,
+            'sample': False}
+  target = pts[case['idx']]
+  conf, holders, out, info = scenario(target)
+  viol = []
+  ctx = {'a': a_op, 'b': b_op, 'a_held_at': [list(target[0]), target[1]],
+         'results': out}
+  c = {'reads_compared': 0, 'ops_applied': 2, 'state_changes': 1,
+       'op_exceptions_expected': 0, 'races_run': 1 if info['reached'] else 0}
+  if a_op == 'declare' and b_op == 'declare':
+    oks = [t for t in ('A', 'B') if out.get(t) == 'ok']
+    if len(oks) != 1 or sorted(out.values()) != ['KeyAlreadyDeclaredError', 'ok']:
+      viol.append({'mechanism': 'key-declared-twice' if len(oks) == 2 else
+                   'racing-declare-results-differ', 'detail': ctx})
+  elif any(v != 'ok' for v in out.values()):
+    viol.append({'mechanism': 'racing-op-raised:%s' % sorted(
+        v for v in out.values() if v != 'ok')[0], 'detail': ctx})
+  # all views of the key agree
+  try:
+    views = {'item': conf['alpha'], 'attr': conf.alpha, 'asdict': conf._asdict()['alpha']}  # pylint: disable=protected-access
+    for tag, h in holders.items():
+      views['holder-' + tag] = h.value
+    c['reads_compared'] = len(views)
+    if len({repr(v) for v in views.values()}) != 1:
+      viol.append({'mechanism': 'views-disagree-after-race',
+                   'detail': dict(ctx, views={k: repr(v) for k, v in views.items()})})
+    for tag, h in holders.items():
+      if out.get(tag) == 'ok' and h.default != tag:
+        viol.append({'mechanism': 'holder-default-differs', 'detail': ctx})
+  except Exception as e:  # pylint: disable=broad-except
+    viol.append({'mechanism': 'read-after-race-raised:' + type(e).__name__,
+                 'detail': ctx})
+  return {'sig': ['race', a_op, b_op, list(target[0]), target[1]],
+          'violations': viol[:3], 'counters': c}
   logging.getLogger('openhtf').setLevel(logging.CRITICAL + 10)
   logging.getLogger('openhtf').propagate = False
 
@@ -404,7 +529,7 @@ def run_ops(ops, case):
     try:
       apply_real(conf, holders, op)
       got_exc = None
-    except Exception as e:  # pylint: disable=broad-except
+    except BaseException as e:  # pylint: disable=broad-except
       got_exc = type(e).__name__
     counters['ops_applied'] += 1
     if want_exc:
@@ -494,6 +619,8 @@ def run_invalid_keys():
 
 
 def run_case(case):
+  if 'race' in case:
+    return run_race(case)
   if 'e2e' in case:
     return run_e2e(case['e2e'])
   if 'invalid_keys' in case:
